@@ -2026,12 +2026,20 @@ class Cluster(object):
             # this is to avoid closing pools when a control connection host became isolated
             if self._discount_down_events and self.profile_manager.distance(host) != HostDistance.IGNORED:
                 connected = False
+                lost_pool = False
                 for session in tuple(self.sessions):
+                    if session.is_shutdown:
+                        continue
                     pool_states = session.get_pool_state()
                     pool_state = pool_states.get(host)
-                    if pool_state:
+                    if pool_state and not pool_state['shutdown']:
                         connected |= pool_state['open_count'] > 0
-                if connected:
+                    else:
+                        # this session has no pool for the host (any more), and while the host
+                        # stays up nobody gives it a new one: only marking the host down and
+                        # reconnecting restores the pools of every session
+                        lost_pool = True
+                if connected and not lost_pool:
                     return
 
             host.set_down()
